@@ -5,7 +5,7 @@
 
      add / subtract / multiply   lhs + rhs, lhs - rhs, lhs * rhs
      divide                      0 if rhs == 0 else vyxalify(sympify(lhs) / rhs)
-     integer_divide              0 if rhs == 0 else lhs // rhs
+     integer_divide              0 if rhs == 0 else vyxalify(floor(sympify(lhs) / rhs))
      modulo                      lhs % rhs          (ZeroDivisionError when rhs == 0)
 
    Python's (and sympy's) `//` is the floor of the exact quotient and `%` is
@@ -30,44 +30,6 @@ Definition vfloordiv (a b : Q) : Q := if is_zero b then 0 else qfloor (a / b).
    see vmod_impl *)
 Definition vmod (a b : Q) : Q := Qred (a - b * qfloor (a / b)).
 
-(* ---- the implementation as it is today ------------------------------------- *)
-(* integer_divide computes `lhs // rhs` with whatever number classes the operands have
-   (`lsym` / `rsym` = the operand is a sympy number, not a Python int).  Python int //
-   Python int, Python int // sympy, sympy // Python int, Rational // Rational and
-   Integer // Integer are the exact floor.  Two operand classes are not (sympy 1.14):
-
-   (1) sympy Integer // non-integer Rational.  Integer.__floordiv__ goes through
-       Number.__divmod__:
-           w = int(rat) if rat >= 0 else int(rat) - 1 ; r = self - other*w
-           if r == Float(other): w += 1
-       and a Rational never compares equal to a Float since sympy 1.13, so an exact
-       negative quotient comes out one too small: Integer(-4) // Rational(1,2) = -9.
-
-   (2) non-integer Rational // sympy Integer.  Integer is a subclass of Rational, so
-       Python tries the right operand's reflected method first, and
-           Integer.__rfloordiv__(self, other) = Integer(Integer(other).p // self.p)
-       truncates lhs toward zero before dividing: Rational(-7,2) // Integer(1) = -3.
-       (Not for lhs = 1/2: that is the singleton class Half, of which Integer is not a
-       subclass, so Half.__floordiv__ = floor(self / other) runs.) *)
-Definition floordiv_quirk (lsym : bool) (a b : Q) : bool :=
-  lsym && is_int a && negb (is_int b) && is_int (a / b) && negb (Qle_bool 0 (a / b)).
-
-Definition qtrunc (a : Q) : Z := Z.quot (Qnum a) (Zpos (Qden a)).   (* toward zero *)
-
-Definition floordiv_trunc_path (rsym : bool) (a b : Q) : bool :=
-  rsym && negb (is_int a) && negb (Qeq_bool a (1 # 2)) && is_int b.
-
-Definition vfloordiv_impl (lsym rsym : bool) (a b : Q) : Q :=
-  if is_zero b then 0
-  else if floordiv_trunc_path rsym a b then qfloor (inject_Z (qtrunc a) / b)
-  else if floordiv_quirk lsym a b then Qred (a / b - 1)
-  else qfloor (a / b).
-
-(* the operand classes on which integer_divide can differ from the exact floor: (1),
-   and (2) with operands of opposite sign *)
-Definition floordiv_defect_class (lsym rsym : bool) (a b : Q) : bool :=
-  floordiv_quirk lsym a b || (floordiv_trunc_path rsym a b && negb (Qle_bool 0 (a * b))).
-
 (* ---- observable results: the canonical form the harness compares ----------- *)
 Inductive cval :=
 | CInt (n : Z)                 (* Python int or sympy Integer *)
@@ -91,23 +53,21 @@ Inductive op := OAdd | OSub | OMul | ODiv | OMod | OFloordiv.
 
 Definition vmod_impl (a b : Q) : cval := if is_zero b then CZeroDiv else canon (vmod a b).
 
-Definition run_op (o : op) (lsym rsym : bool) (a b : Q) : cval :=
+Definition run_op (o : op) (a b : Q) : cval :=
   match o with
   | OAdd => canon (vadd a b)
   | OSub => canon (vsub a b)
   | OMul => canon (vmul a b)
   | ODiv => canon (vdiv a b)
   | OMod => vmod_impl a b
-  | OFloordiv => canon (vfloordiv_impl lsym rsym a b)
+  | OFloordiv => canon (vfloordiv a b)
   end.
 
-(* one correspondence case: operator, "lhs / rhs is a sympy number", lhs p/q, rhs p/q,
-   and what the implementation returned.  props/C07.py passes the two tags as they are
-   only for an operand class that known_findings.json records as a known defect of
-   integer_divide, and `false` otherwise: vfloordiv_impl false false = vfloordiv
-   (C07_floordiv_impl_pyint), i.e. everything else is compared with the exact floor. *)
-Definition K (o : op) (lsym rsym : bool) (p1 : Z) (q1 : positive) (p2 : Z) (q2 : positive) (r : cval) : bool :=
-  cval_eqb (run_op o lsym rsym (Qmake p1 q1) (Qmake p2 q2)) r.
+(* one correspondence case: operator, lhs p/q, rhs p/q, and what the implementation
+   returned (the operand representation -- Python int or sympy number -- is varied by
+   the harness; the model does not depend on it) *)
+Definition K (o : op) (p1 : Z) (q1 : positive) (p2 : Z) (q2 : positive) (r : cval) : bool :=
+  cval_eqb (run_op o (Qmake p1 q1) (Qmake p2 q2)) r.
 
 (* ---- expression trees over + - * / ------------------------------------------ *)
 Inductive expr :=
